@@ -85,16 +85,17 @@ def dumpIOL : Check.IOL → Json
           | some .plural => "plural"
           | some (.range t) => jString t.name)]])))])]
 
-partial def dumpBKI (b : Check.BKI) : Json :=
+partial def dumpBKI (all : List Str) (b : Check.BKI) : Json :=
   jarr (b.map (fun (k, lv) => jarr [jstr k, match lv with
     | .value v d => jobj [("v", "value"), ("value", dumpIOL v),
         ("defaults", jobj [("default_locale", jstr d.dflt), ("mapping", jarr (d.mapping.map (fun (a, b) => jarr [jstr a, jstr b]))),
+          ("effective", jarr (all.map (fun l => jarr [jstr l, jstr (Check.defaultOf d (d.mapping.length + 1) l [])]))),
           ("compute", jarr ((Check.compute d).map (fun (a, l) => jarr [jstr a, jarr (l.map jstr)])))])]
-    | .subkeys locales keys => jobj [("v", "subkeys"), ("locales", jarr (locales.map dumpLoc)), ("keys", dumpBKI keys)]]))
+    | .subkeys locales keys => jobj [("v", "subkeys"), ("locales", jarr (locales.map dumpLoc)), ("keys", dumpBKI all keys)]]))
 
 def dumpOutput (o : Pipeline.Output) : Json :=
   jobj [("namespaced", Json.bool o.namespaced),
-    ("nss", jarr (o.nss.map (fun ns => jobj [("key", jopt jstr ns.key), ("locales", jarr (ns.locales.map dumpLoc)), ("keys", dumpBKI ns.keys)]))),
+    ("nss", jarr (o.nss.map (fun ns => jobj [("key", jopt jstr ns.key), ("locales", jarr (ns.locales.map dumpLoc)), ("keys", dumpBKI o.locales ns.keys)]))),
     ("warnings", jarr (o.warnings.map dumpWarning))]
 
 end Driver
